@@ -51,6 +51,23 @@ def run(ctx):
         events.append({"op": "nextprime", "lo": lo, "hi": lo + 127, "outs": [int(nt.next_prime(n)) for n in range(lo, lo + 128)]})
     for g in (31397, 155921, 360653, 370261, 492113, 1349533 if not quick else 492113):    # maximal prime gaps start here
         events.append({"op": "nextprime", "lo": g - 3, "hi": g + 4, "outs": [int(nt.next_prime(n)) for n in range(g - 3, g + 5)]})
+    # the same blocks again in descending and in shuffled call order (results must not depend on earlier calls)
+    for lo in (0, 128, 896, 1152, 4096 - 128, ntop - 128):
+        ns_ = list(range(lo, lo + 128))
+        desc = {n: int(nt.next_prime(n)) for n in reversed(ns_)}
+        events.append({"op": "nextprime", "lo": lo, "hi": lo + 127, "outs": [desc[n] for n in ns_]})
+        shuf = ns_[:]
+        rnd.shuffle(shuf)
+        res = {n: int(nt.next_prime(n)) for n in shuf}
+        events.append({"op": "nextprime", "lo": lo, "hi": lo + 127, "outs": [res[n] for n in ns_]})
+    for g in (999683, 31397, 492113):
+        order = [g, g - 1, g - 2, g + 1, g, g - 3, g - 1]
+        res = {}
+        for n in order:
+            res.setdefault(n, []).append(int(nt.next_prime(n)))
+        for n, vs in res.items():
+            events.append({"op": "nextprime", "lo": n, "hi": n, "outs": [vs[-1]]})
+            events.append({"op": "nextprime", "lo": n, "hi": n, "outs": [vs[0]]})
     # factorisation: every n below the bound, structured n beyond (squares and products of primes above the table's last prime 1229)
     ftop = 2 ** 12 if quick else 2 ** 17
     ns = list(range(-3, ftop))
@@ -75,7 +92,7 @@ def run(ctx):
     if quick:
         tuples = tuples[:15 + 225] + rnd.sample(tuples[240:], 600)
     for t in tuples:
-        for conv in ("args", "iter"):
+        for conv in ("args", "iter", "gen"):
             for fn in ("gcd", "lcm"):
                 if fn == "lcm" and all(x == 0 for x in t):
                     continue            # value of lcm(0, .., 0) is a convention the property does not fix
@@ -83,7 +100,7 @@ def run(ctx):
                     continue            # gcd(x) with a single non-iterable argument returns x itself; covered by "iter"
                 f = getattr(nt, fn)
                 try:
-                    out, ok = (f(*t) if conv == "args" else f(list(t))), True
+                    out, ok = (f(*t) if conv == "args" else f(list(t)) if conv == "iter" else f(iter(list(t))) if len(t) % 2 else f(x for x in t)), True
                     out = int(out)
                 except BaseException:  # noqa
                     out, ok = 0, False
